@@ -140,6 +140,29 @@ Decode(bs) ==
     ELSE IF Check(p.seqs) # "ok" THEN Bad(Check(p.seqs))
     ELSE [ok |-> TRUE, out |-> Apply(p.seqs), strict |-> EndRules(p.seqs) /\ p.nib = 0]
 
+(* Does the (parsed) block decode to the given bytes x?  Element-wise, without building the  *)
+(* output (see Snappy.Against): literals must equal their slice of x, a match (off, ml) at    *)
+(* output position p needs 1 <= off <= p and x[p-off+1+((j-1)%off)] = x[p+j].                 *)
+(* Equivalent to Check(seqs) = "ok" /\ Apply(seqs) = x (law checked in MC_Lz4Self).           *)
+Against(seqs, x) ==
+    LET n == Len(x)
+        step(acc, s) ==      \* acc = <<p, verdict>>
+            IF acc[2] # "ok" THEN acc
+            ELSE LET p == acc[1]
+                     L == CLen(s.lit)
+                 IN
+                 IF p + L > n THEN <<p, "output-longer-than-input">>
+                 ELSE IF ~(\A j \in 1..L : CAt(s.lit, j) = x[p + j]) THEN <<p, "literal-differs-from-input">>
+                 ELSE IF ~HasMatch(s) THEN <<p + L, "ok">>
+                 ELSE LET q == p + L IN
+                      IF s.off = 0 THEN <<q, "offset-zero">>
+                      ELSE IF s.off > q THEN <<q, "offset-beyond-output">>
+                      ELSE IF q + s.ml > n THEN <<q, "output-longer-than-input">>
+                      ELSE IF \A j \in 1..s.ml : x[q - s.off + 1 + ((j - 1) % s.off)] = x[q + j] THEN <<q + s.ml, "ok">>
+                      ELSE <<q, "match-differs-from-input">>
+        r == IF ~Encodable(seqs) THEN <<0, "not-encodable">> ELSE FoldLeft(step, <<0, "ok">>, seqs)
+    IN IF r[2] # "ok" THEN r[2] ELSE IF r[1] # n THEN "output-shorter-than-input" ELSE "ok"
+
 DecodeInto(bs, cap) ==
     LET d == Decode(bs) IN
     IF d.ok /\ Len(d.out) > cap THEN Bad("output-exceeds-capacity") ELSE d
